@@ -20,6 +20,7 @@ import (
 	"reflect"
 	"sort"
 	"sync"
+	"sync/atomic"
 	"testing"
 
 	"github.com/google/jsonschema-go/jsonschema"
@@ -61,6 +62,9 @@ type c13World struct {
 	types    []reflect.Type
 	forOpts  *jsonschema.ForOptions
 }
+
+// c13Unique numbers the regular expressions of the resolve-new operation within this process.
+var c13Unique atomic.Int64
 
 func buildC13World(c *c13Case) (*c13World, *failure) {
 	w := &c13World{}
@@ -161,6 +165,21 @@ func (w *c13World) run(op c13Op, c *c13Case) string {
 			return "resolve-error"
 		}
 		return fmt.Sprint(rs.Validate(w.insts[op.Inst%len(w.insts)]) == nil)
+	case "resolve-new":
+		// a brand-new Schema with regular expressions nobody has compiled yet, resolved by this
+		// goroutine alone: nothing is shared, so nothing may be shared behind the scenes either
+		// (the unique part matches no instance, so the verdict does not depend on it)
+		u := c13Unique.Add(1)
+		text := fmt.Sprintf(`{"patternProperties":{"^zq%dq$":{"type":"integer"},"zq%dx":false},"properties":{"s":{"pattern":"^zq%d[a-c]+$"}},"additionalProperties":{"not":{"pattern":"zq%dy"}}}`, u, u, u, u)
+		var s jsonschema.Schema
+		if err := json.Unmarshal([]byte(text), &s); err != nil {
+			return "unmarshal-error"
+		}
+		rs, err := s.Resolve(nil)
+		if err != nil {
+			return "resolve-error"
+		}
+		return fmt.Sprint(rs.Validate(w.insts[op.Inst%len(w.insts)]) == nil)
 	case "for":
 		if len(w.types) == 0 {
 			return "no-types"
@@ -238,7 +257,7 @@ func checkC13(c *c13Case, rec *ev.Recorder) *failure {
 func TestC13(t *testing.T) {
 	rec := ev.For("C13")
 	defer finish(rec)
-	rec.Describe("case = a workload: 1-3 schema documents (object/unevaluated/array/string lenses: pattern, patternProperties, required, uniqueItems, unevaluated*) plus, in half of the cases, a $dynamicRef topology served by a shared caching Loader; each resolved once and shared; 3-5 shared instances; 1-3 shared Go types with an optional shared TypeSchemas map; 2-8 goroutines x 1-12 operations from {Validate on a shared instance, ApplyDefaults on a private copy, Marshal, CloneSchemas+Marshal, Resolve of the shared Schema + Validate, ForType}; one barrier releases all goroutines. Oracles: Go race detector (halt_on_error; happens-before based, so it flags unsynchronised conflicting accesses that occur in the run whatever their timing) and equality of every operation's result with the same operation executed alone beforehand. Non-trivial: >=2 goroutines operate on the same shared object. Distinct = distinct workload.",
+	rec.Describe("case = a workload: 1-3 schema documents (object/unevaluated/array/string lenses: pattern, patternProperties, required, uniqueItems, unevaluated*) plus, in half of the cases, a $dynamicRef topology served by a shared caching Loader; each resolved once and shared; 3-5 shared instances; 1-3 shared Go types with an optional shared TypeSchemas map; 2-8 goroutines x 1-12 operations from {Validate on a shared instance, ApplyDefaults on a private copy, Marshal, CloneSchemas+Marshal, Resolve of the shared Schema + Validate, Resolve + Validate of a brand-new Schema whose regular expressions occur nowhere else in the process, ForType}; in half of the workloads every object schema carries a partial PropertyOrder in a slice with spare capacity; one barrier releases all goroutines. Oracles: Go race detector (halt_on_error; happens-before based, so it flags unsynchronised conflicting accesses that occur in the run whatever their timing) and equality of every operation's result with the same operation executed alone beforehand. Non-trivial: >=2 goroutines operate on the same shared object. Distinct = distinct workload.",
 		"interleavings are chosen by the Go scheduler, not enumerated; a schedule cannot be shrunk, so the replay is the journalled workload re-run 50 times",
 		"results compared by verdict / bytes hash / error-ness")
 	rapid.Check(t, func(t *rapid.T) {
@@ -278,7 +297,7 @@ func TestC13(t *testing.T) {
 		if c.Dynamic != nil {
 			nschemas++
 		}
-		kinds := []string{"validate", "validate", "validate", "defaults", "marshal", "clone", "resolve", "for"}
+		kinds := []string{"validate", "validate", "validate", "defaults", "marshal", "clone", "resolve", "for", "resolve-new"}
 		users := map[string]map[int]bool{}
 		for g, k := 0, 2+n(7, "goroutines"); g < k; g++ {
 			var ops []c13Op
